@@ -224,6 +224,7 @@ func (dbc *DatabaseContext) UpdatePrincipal(ctx context.Context, updates *auth.P
 			}
 		}
 		princ.SetUpdatedAt()
+		casBeforeSave := princ.Cas()
 		err = authenticator.Save(princ)
 		// On cas error, retry.  Otherwise break out of loop
 		if base.IsCasMismatch(err) {
@@ -234,7 +235,8 @@ func (dbc *DatabaseContext) UpdatePrincipal(ctx context.Context, updates *auth.P
 			}
 		} else {
 			// release the sequence number we allocated if the principal was not saved, unless the outcome is unknown (timeout)
-			if err != nil && !base.IsTimeoutError(err) {
+			// (a changed cas means the principal document itself was written, carrying the sequence, and a later step of the save failed)
+			if err != nil && !base.IsTimeoutError(err) && princ.Cas() == casBeforeSave {
 				if releaseErr := dbc.sequences.releaseSequence(ctx, nextSeq); releaseErr != nil {
 					base.InfofCtx(ctx, base.KeyAuth, "Error releasing unused sequence %d after failed update of principal %s: %v", nextSeq, base.UD(princ.Name()), releaseErr)
 				}
